@@ -36,6 +36,9 @@ RULE = ('streams: pipelines from an independent RFC 7230 writer (requests and re
 BATCH = 3000
 
 
+BOUNDARY = [b'\r\n', b'\r\n', b'\r\n\r\n', b'\n', b'\r', b' ', b'\t', b'\r\n ', b'\x00', b'\r\n\r\n\r\n']
+
+
 def fragmentations(rng, n, k):
 	out = [[], list(range(1, n))]
 	for _ in range(k):
@@ -53,6 +56,12 @@ def cases(rng, tier):
 		('server', b'GET / HTTP/1.1\r\nHost: h\r\nbad line\r\nX: y'),
 		('server', b'POST / HTTP/1.1\r\nHost: h\r\nTransfer-Encoding: chunked\r\n\r\n1\r\na\r\n0\r\n\r\n'),
 		('client', b'HTTP/1.1 200 OK\r\nContent-Length: 2\r\n\r\nhiHTTP/1.1 204 No Content\r\n\r\n'),
+		# stray octets where a start line is expected (before the first message, between two, at the end)
+		('server', b'\r\nGET / HTTP/1.1\r\nHost: h\r\n\r\n'),
+		('server', b'POST / HTTP/1.1\r\nHost: h\r\nContent-Length: 1\r\n\r\nx\r\nGET / HTTP/1.1\r\nHost: h\r\n\r\n'),
+		('server', b'GET / HTTP/1.1\r\nHost: h\r\nContent-Length: 0\r\n\r\n\r\n'),
+		('client', b'\r\nHTTP/1.1 200 OK\r\nContent-Length: 0\r\n\r\n'),
+		('client', b'HTTP/1.1 200 OK\r\nContent-Length: 2\r\n\r\nhi\r\n\r\nHTTP/1.1 200 OK\r\nContent-Length: 0\r\n\r\n'),
 	]
 	for side, s in corpus:
 		yield ('s', side, s, tuple(tuple(c) for c in fragmentations(rng, len(s), k)))
@@ -68,8 +77,18 @@ def cases(rng, tier):
 		side = rng.choice(('server', 'server', 'client'))
 		recs = wire.gen_pipeline(rng, side)
 		s = b''.join(r.wire for r in recs)
-		mode = rng.randrange(4)
-		if mode == 1:
+		mode = rng.randrange(5)
+		if mode == 4:
+			# boundary mutation: stray octets between the messages of the pipeline
+			parts = []
+			for r in recs:
+				if rng.random() < 0.6:
+					parts.append(rng.choice(BOUNDARY))
+				parts.append(r.wire)
+			if rng.random() < 0.5:
+				parts.append(rng.choice(BOUNDARY))
+			s = b''.join(parts)
+		elif mode == 1:
 			s = s[:rng.randrange(0, len(s) + 1)]
 		elif mode >= 2:
 			s = wire.mutate(rng, s)
